@@ -101,6 +101,7 @@ Definition repo_imports : list (string * string) := [
   ("interp", "io");
   ("interp", "io/fs");
   ("interp", "math");
+  ("interp", "math/big");
   ("interp", "math/rand");
   ("interp", "os");
   ("interp", "os/exec");
